@@ -156,6 +156,10 @@ def _run_one(mod, case, known):
     try:
         out = mod.run_case(case)
     except CaseTimeout:
+        if getattr(mod, 'TIMEOUT_INCONCLUSIVE', False):
+            # simulator checks decide hangs by quiescence; there a watchdog hit only means a slow machine or an
+            # expensive case: counted as inconclusive, never a violation
+            return Outcome(True, inconclusive=True, nontrivial=False, labels=['watchdog-timeout'])
         out = Outcome(False, f'case did not terminate within {limit} s (watchdog): '
                       f'{json.dumps(case, default=str)[:1500]}')
         hook = getattr(mod, 'classify_timeout', None)
